@@ -432,6 +432,13 @@ func (g *Gen) c05Datagram(kind int, i int, reqWire, secret []byte, reqCode int, 
 		w := genuine()
 		w[4+(i+g.Intn(2)*g.Intn(16))%16] ^= byte(1 << uint(g.Intn(8)))
 		return w
+	case 15: // a well-formed reply carrying ANOTHER Identifier: left as signed (not authentic any more), or signed again
+		w := genuine()
+		w[1] ^= byte(1 + g.Intn(255))
+		if g.Chance(1, 3) {
+			signReply(w, reqAuth, secret)
+		}
+		return w
 	default: // the request echoed back
 		return append([]byte{}, reqWire...)
 	}
@@ -490,9 +497,9 @@ func genC05(g *Gen, tier string, emit func(op string, args ...string)) {
 			case g.Chance(1, 30): // a second authentic reply somewhere
 				d = g.c05Datagram(0, i, wire, secret, reqCode, hist)
 			case skip && g.Chance(1, 2): // with verification off most forgeries would end the call at once
-				d = g.c05Datagram(g.Pick(4, 6, 7, 7, 8, 9), i, wire, secret, reqCode, hist)
+				d = g.c05Datagram(g.Pick(4, 6, 7, 7, 8, 9, 15), i, wire, secret, reqCode, hist)
 			default:
-				d = g.c05Datagram(1+g.Intn(14), i, wire, secret, reqCode, hist)
+				d = g.c05Datagram(1+g.Intn(15), i, wire, secret, reqCode, hist)
 			}
 			hist = append(hist, d)
 		}
